@@ -5,7 +5,7 @@ import operator
 
 from python_minifier.ast_annotation import add_parent
 from python_minifier.rename import add_namespace
-from vf.stubs import mod, patched
+from vf.stubs import untraced, mod, patched
 
 OPS = [(ast.Add, operator.add, '+'), (ast.Sub, operator.sub, '-'), (ast.Mult, operator.mul, '*'), (ast.FloorDiv, operator.floordiv, '//'),
        (ast.Mod, operator.mod, '%'), (ast.LShift, operator.lshift, '<<'), (ast.RShift, operator.rshift, '>>'), (ast.BitOr, operator.or_, '|'),
@@ -208,6 +208,10 @@ def fold_pairs(op: int, ia: int, ib: int, vc: int, vd: int) -> bool:
     pre: 0 <= vc <= 3 and 0 <= vd <= 3
     post: _
     """
+    return untraced(_fold_pairs_impl, op, ia, ib, vc, vd)
+
+
+def _fold_pairs_impl(op, ia, ib, vc, vd):
     # two expressions in one module whose operands are numerically equal but of different literal types
     # (1 / 1.0 / True): each folded result must denote exactly what its own expression evaluates to
     from python_minifier.transforms.constant_folding import FoldConstants
@@ -278,6 +282,10 @@ def fold_nested(op1: int, op2: int, ia: int, ib: int, ic: int, ctx: int, right_n
     pre: 0 <= ctx < N_CTX
     post: _
     """
+    return untraced(_fold_nested_impl, op1, op2, ia, ib, ic, ctx, right_nested)
+
+
+def _fold_nested_impl(op1, op2, ia, ib, ic, ctx, right_nested):
     # (A op1 B) op2 C  /  A op2 (B op1 C) inside a syntactic context: the whole closed expression evaluates identically
     # (type, value, sign of zero, exception) before and after folding, through the real printer
     import copy
@@ -308,6 +316,10 @@ def number_print(iv: int, neg: bool, ctx: int) -> bool:
     pre: 0 <= ctx < N_CTX
     post: _
     """
+    return untraced(_number_print_impl, iv, neg, ctx)
+
+
+def _number_print_impl(iv, neg, ctx):
     # C02d/C07: a numeric constant (incl. negative zero, infinities, complex with signed zero parts) printed by the real
     # printer in any context evaluates to the identical value
     v = NUMS[iv]
